@@ -58,6 +58,33 @@ def product (ls : List (List Nat)) : List (List Nat) := Bls.product ls
 /-- `x.bit_length()` -/
 def bitLength (x : Nat) : Nat := if x = 0 then 0 else Nat.log2 x + 1
 
+def ceilLog2Aux (x : Nat) : Nat → Nat → Nat → Nat
+  | 0, e, _ => e
+  | f + 1, e, p => if x ≤ p then e else ceilLog2Aux x f (e + 1) (2 * p)
+/-- `math.ceil(math.log2(x))` for `x ≥ 1` (a `ValueError` for 0): the least `e` with `x ≤ 2 ^ e`.  CPython computes it in
+    floating point; `math.log2` is exact on powers of two and correctly rounded elsewhere, so the two agree for all
+    `x < 2 ^ 48` (the callers pass `max(8, n.bit_length())`, a number below 2 ^ 7 for every `n` that fits in memory). -/
+def ceilLog2 (x : Nat) : M Nat :=
+  if x = 0 then throw .valueError else pure (ceilLog2Aux x x 0 1)
+/-- `l[i]` (IndexError when out of range) -/
+def index {α : Type} (l : List α) (i : Nat) : M α :=
+  match l[i]? with
+  | some x => pure x
+  | none => throw (.other "IndexError")
+
+/-! The composition API of `BitLengthSet` as seen from the layout code: every method wraps its operands into the operator of
+    `_symbolic.py` it names (`_bit_length_set.py`: `pad_to_alignment` → `PaddingOperator`, `repeat` → `RepetitionOperator`,
+    `repeat_range` → `RangeRepetitionOperator`, `concatenate` / `+` → `ConcatenationOperator`, `unite` / `|` → `UnionOperator`,
+    `BitLengthSet(n)` → `NullaryOperator([n])`); memoisation wrappers are transparent (`C01.memo_transparent`). -/
+def blsOfInt (n : Nat) : Bls.Op := .leaf [n]
+def blsAdd (a b : Bls.Op) : Bls.Op := .cat [a, b]
+def blsPad (a : Bls.Op) (n : Nat) : M Bls.Op := if n < 1 then throw .valueError else pure (.pad a n)
+def blsRepeat (a : Bls.Op) (k : Nat) : Bls.Op := .rep a k
+def blsRepeatRange (a : Bls.Op) (k : Nat) : Bls.Op := .rrep a k
+def blsUnite (l : List Bls.Op) : M Bls.Op := if l.isEmpty then throw .valueError else pure (.uni l)
+/-- `bls.is_aligned_at(d)`, i.e. `set(bls % d) == {0}` -/
+def blsIsAlignedAt (a : Bls.Op) (d : Nat) : M Bool := if d = 0 then throw .zeroDivision else pure (Bls.isAlignedAt a d)
+
 /-- A `for` loop whose body updates the loop-carried state `σ`. -/
 def forEach {α σ : Type} (l : List α) (init : σ) (body : σ → α → M σ) : M σ := l.foldlM body init
 
